@@ -256,7 +256,7 @@ def build(d):
             return np.broadcast_to(a[0], a.shape)
         if lay == "memmap":
             global _TMP
-            if _TMP is None:
+            if _TMP is None or not os.path.isdir(_TMP):  # the runner removes each shard's private temp dir
                 import tempfile
 
                 _TMP = tempfile.mkdtemp(prefix="mc-c12-")
